@@ -163,21 +163,22 @@ def rule_K2(ctx: Ctx) -> None:
             except Unknown:
                 has_cmp = any(isinstance(c, ast.Compare) and tgt in N.names_in(c) for c in ast.walk(n.ast))
                 if has_cmp:
-                    # candidate exemption: the True branch is exempt, the False branch must raise
-                    exemptions.append(n)
-                    succ = [(s, lab) for s, lab in n.succ if lab is False]
+                    # candidate exemption: the branch on which the (un-negated) test holds is exempt, the other one must raise
+                    neg = isinstance(n.ast, ast.UnaryOp) and isinstance(n.ast.op, ast.Not)
+                    exemptions.append(n.ast.operand if neg else n.ast)
+                    succ = [(s, lab) for s, lab in n.succ if lab is neg]
                 # any other undecidable test: both branches
         for s, _ in succ:
             stack.append(s)
     flag_defaults = {k: v for k, v in defaults.items() if k != tgt}
-    slot = {"default_flags": flag_defaults, "exemption_tests": [X.U(e.ast)[:160] for e in exemptions],
+    slot = {"default_flags": flag_defaults, "exemption_tests": [X.U(e)[:160] for e in exemptions],
             "non_exempt_paths_reaching_return": len(reached_exit)}
     if reached_exit:
         ctx.violation(f, slot, exp2, "a config mismatch does not raise under the default flags: a cache file of another configuration is served", node=dn[0].ast)
         return
     ok_ex, why = True, ""
     for e in exemptions:
-        conj = e.ast.values if isinstance(e.ast, ast.BoolOp) and isinstance(e.ast.op, ast.And) else [e.ast]
+        conj = e.values if isinstance(e, ast.BoolOp) and isinstance(e.op, ast.And) else [e]
         for c in conj:
             if isinstance(c, ast.Name):
                 continue
